@@ -279,3 +279,84 @@ func H_C19_http_idle() {
 		goh.Cancel()
 	})
 }
+
+// H_C19_http_ack: a valid envelope is POSTed while nobody reads the connection; the idle sweep runs;
+// only then does the connection's user read. If the sender was told "accepted" (200), the envelope
+// must be what that Read returns - an acknowledged envelope is never lost; otherwise the sender got
+// an error status and the Read may fail.
+func H_C19_http_ack() {
+	clock := &zzFakeClock{now: time.Unix(100000, 0), tick: make(chan time.Time)}
+	var conn RpcReadWriter
+	announced := make(chan struct{})
+	goh := NewGoatOverHttp(func(id string, rw RpcReadWriter) {
+		vfHarnessGoroutine()
+		conn = rw
+		close(announced)
+	}, func(src string) (string, error) { return src, nil },
+		WithClock(clock), WithConnectionTimeout(time.Second), WithConnectionCleanupInterval(time.Second))
+	d, _ := proto.Marshal(&Rpc{Id: 7, Header: &RpcHeader{Method: "/s/m", Source: "peer"}})
+	w := &zzRespWriter{hdr: http.Header{}}
+	served := false
+	go func() {
+		goh.ServeHTTP(w, &http.Request{Method: "POST", Body: &zzBodyReader{data: d}})
+		served = true
+	}()
+	ticked := make(chan struct{})
+	go func() {
+		<-announced
+		clock.tick <- clock.now // every connection is idle past its timeout
+		close(ticked)
+	}()
+	var got *Rpc
+	readDone := false
+	go func() {
+		<-ticked
+		ctx, cancel := context.WithCancel(context.Background())
+		go func() { cancel() }() // the reader does not wait forever
+		got, _ = conn.Read(ctx)
+		readDone = true
+	}()
+	vfAtQuiescence(func() {
+		vfAssert(served && readDone, "ServeHTTP-and-Read-return")
+		if served && (w.code == 0 || w.code == 200) {
+			vfAssert(got != nil && got.Id == 7, "acknowledged-envelope-is-delivered")
+			vfReach("acknowledged")
+		} else {
+			vfReach("refused")
+		}
+		vfReach("checked")
+		goh.Cancel()
+	})
+}
+
+// H_C19_ws_write_conc: two goroutines write on one WebSocket transport at the same time (the client
+// multiplexer does exactly that: every caller writes from its own goroutine). Both envelopes go out
+// as separate, complete binary messages; run in race mode, the transport's own state must not be
+// written unsynchronised.
+func H_C19_ws_write_conc() {
+	env := internal.VfEnv
+	ws := NewGoatOverWebsocket(nil)
+	done := 0
+	var mu vfMutex
+	for i := 0; i < 2; i++ {
+		id := uint64(i + 1)
+		go func() {
+			err := ws.Write(context.Background(), &Rpc{Id: id, Header: &RpcHeader{Source: "a"}})
+			vfAssert(err == nil, "write-ok")
+			mu.vfLock()
+			done++
+			mu.vfUnlock()
+		}()
+	}
+	vfAtQuiescence(func() {
+		vfAssert(done == 2 && len(env.WsWrites) == 2, "both-envelopes-written")
+		seen := map[uint64]bool{}
+		for _, b := range env.WsWrites {
+			var back Rpc
+			vfAssert(proto.Unmarshal(b, &back) == nil, "each-message-is-one-complete-envelope")
+			seen[back.Id] = true
+		}
+		vfAssert(seen[1] && seen[2], "each-envelope-written-once")
+		vfReach("checked")
+	})
+}
